@@ -361,7 +361,9 @@ func (s *Service) unblindProposal(ctx context.Context,
 	// semaphore to track if a signed block has been returned by any provider.
 	sem := semaphore.NewWeighted(1)
 
-	respCh := make(chan *api.VersionedSignedProposal, 1)
+	// Every relay can deliver its block without waiting for a receiver: only the first block is
+	// read, and the goroutines of the other relays must be able to finish.
+	respCh := make(chan *api.VersionedSignedProposal, len(providers))
 	for _, provider := range providers {
 		go func(ctx context.Context, provider builderclient.UnblindedProposalProvider, ch chan *api.VersionedSignedProposal) {
 			log := s.log.With().Str("provider", provider.Address()).Logger()
